@@ -18,12 +18,15 @@ typedef struct {
 	int use_fd;           /* writer_init_fd (always when prefix_len > 0) */
 	int madvise;          /* reader option */
 	int verify;           /* reader option */
+	int madvise_env;      /* MTBL_READER_MADVISE_RANDOM: -1 unset, 0, 1 (overrides the option; must not affect anything else) */
 } wcfg_t;
 
 static const char *COMP_NAME[] = {"none", "snappy", "zlib", "lz4", "lz4hc", "zstd"};
 static const char *LEVEL_CLASS[] = {"default", "below-min", "min", "mid", "max", "above-max"};
 #define LEVEL_DEFAULT (-10000)
 
+static int g_allow_huge_prefix;     /* harnesses that map (not read) their files may place the table behind a sparse >= 2 GiB / 4 GiB hole */
+#define HUGE_PREFIX(c) ((c)->prefix_len > (1u << 24))
 static inline size_t eff_block_size(const wcfg_t *c) { return c->block_size < 1024 ? 1024 : c->block_size; }
 
 static inline void gen_wcfg(rng_t *r, wcfg_t *c)
@@ -49,9 +52,11 @@ static inline void gen_wcfg(rng_t *r, wcfg_t *c)
 	c->restart = PICK(r, RI);
 	c->pool = PICK(r, POOL);
 	c->prefix_len = PICK(r, PFX);
+	if (g_allow_huge_prefix && rndn(r, 25) == 0) { static const size_t HP[] = {(1ULL << 31) + 7, (1ULL << 32) - 300, (1ULL << 32) + 5, 5 * (1ULL << 32) + 12345}; c->prefix_len = PICK(r, HP); }
 	c->use_fd = c->prefix_len > 0 || rndp(r, 300);
 	c->madvise = rndp(r, 300);
 	c->verify = rndp(r, 500);
+	c->madvise_env = rndn(r, 4) == 0 ? (int)rndn(r, 2) : -1;
 }
 static inline const char *wcfg_str(const wcfg_t *c)
 {
@@ -68,6 +73,7 @@ static inline void wcfg_stats(const wcfg_t *c)
 	statf(1, "cfg.restart.%zu", c->restart);
 	statf(1, "cfg.pool.%d", c->pool);
 	statf(1, "cfg.prefix.%zu", c->prefix_len);
+	if (c->prefix_len >= (1ULL << 32) - 300) STAT("cfg.table_offsets_at_or_above_2^32");
 }
 
 static inline struct mtbl_writer_options *wcfg_options(const wcfg_t *c, struct mtbl_threadpool *pool)
@@ -93,7 +99,11 @@ static inline struct mtbl_writer *open_writer(const char *path, const wcfg_t *c,
 	if (c->use_fd || c->prefix_len) {
 		int fd = open(path, O_RDWR | O_CREAT | O_EXCL, 0644);
 		if (fd < 0) { fprintf(stderr, "harness: cannot create %s: %s\n", path, strerror(errno)); exit(99); }
-		if (c->prefix_len) {
+		if (HUGE_PREFIX(c)) {
+			/* a sparse hole: the foreign bytes are zeros, every table offset is >= 2^31 / 2^32 */
+			if (ftruncate(fd, c->prefix_len) != 0) exit(99);
+			lseek(fd, c->prefix_len, SEEK_SET);
+		} else if (c->prefix_len) {
 			uint8_t *p = xmalloc(c->prefix_len);
 			for (size_t i = 0; i < c->prefix_len; i++) p[i] = foreign_byte(i);
 			if (pwrite(fd, p, c->prefix_len, 0) != (ssize_t)c->prefix_len) exit(99);
@@ -136,6 +146,7 @@ static inline struct mtbl_reader *open_reader(const char *path, const wcfg_t *c)
 	struct mtbl_reader_options *ro = mtbl_reader_options_init();
 	mtbl_reader_options_set_madvise_random(ro, c->madvise);
 	mtbl_reader_options_set_verify_checksums(ro, c->verify);
+	if (c->madvise_env >= 0) { setenv("MTBL_READER_MADVISE_RANDOM", c->madvise_env ? "1" : "0", 1); STAT("cfg.madvise_env_set"); } else unsetenv("MTBL_READER_MADVISE_RANDOM");
 	struct mtbl_reader *r = mtbl_reader_init(path, ro);
 	mtbl_reader_options_destroy(&ro);
 	return r;
